@@ -57,7 +57,7 @@ def one_case(args):
             fargs = R.filter_args(kind, v)
             argv = ([] if use_stdin else [path]) + fargs + (["-o", "stdout"] if to_stdout and rng.random() < 0.5 else [])
             r = obs.run(exe, argv, stdin_path=path if use_stdin else None, workdir=wd, stats="json",
-                        out_name=(not to_stdout), tag="c%d" % case, stdin_chunk=(rng.choice([None, None, 13, 512, 8191, 8193]) if use_stdin and npk <= 400 else None))
+                        out_name=(not to_stdout), tag="c%d" % case, prefill_out=(b"\x5a" * (len(data) + 4096) if case % 2 == 0 else None), stdin_chunk=(rng.choice([None, None, 13, 512, 8191, 8193]) if use_stdin and npk <= 400 else None))
             got = r.stdout if to_stdout else r.out_file
             exp = ref_filter(pkts, kind, v)
             want = b"".join(R.pack(p.f) + p.payload for p in exp)
